@@ -135,6 +135,7 @@ var prefixes = ev.NewCheck("C05", "prefixes",
 		c := PrefixCase{OnlyCut: -1}
 		if rapid.IntRange(0, 2).Draw(t, "grammar?") > 0 {
 			o := gen.AllFreedoms
+			o.MaxAlien = 300
 			o.MaxPayload, o.MaxEvents, o.MaxTracks = 150, 7, 3
 			f := gen.File(t, o)
 			c.Grammar = &f
@@ -167,9 +168,13 @@ func runMut(c MutCase) (res ev.Result) {
 	// the result is a function of the bytes: reading something else in between (a file that stops
 	// in the middle of a track, then a complete one) must not change it
 	smf.ReadFrom(bytes.NewReader(interruptedFile))
-	r2, _ := generic(c.Input)
+	r2, v2 := generic(c.Input)
 	smf.ReadFrom(bytes.NewReader(completeFile))
-	r3, _ := generic(c.Input)
+	r3, v3 := generic(c.Input)
+	if v2 != "" || v3 != "" {
+		res.Violation = "reading the same bytes again: " + v2 + v3
+		return
+	}
 	for _, r := range []readResult{r2, r3} {
 		if (r.err == nil) != (r1.err == nil) {
 			res.Violation = fmt.Sprintf("reading the same bytes again after reading another file gives a different outcome: first err=%v, then err=%v", r1.err, r.err)
@@ -220,6 +225,7 @@ func genMut(t *rapid.T) MutCase {
 		c.Ops = append(c.Ops, "header+random-body")
 	default:
 		o := gen.AllFreedoms
+		o.MaxAlien = 300
 		o.MaxPayload, o.MaxEvents, o.MaxTracks = 100, 7, 3
 		f := gen.File(t, o)
 		// grammar level mutations first
